@@ -11,7 +11,7 @@ from pyvc.unit import U, R
 from . import step
 from .common import method_unit
 
-DEPENDENTS = ['C01', 'C02', 'C03', 'C04', 'C05', 'C06', 'C07', 'C08', 'C09', 'C11', 'C12', 'C13', 'C18', 'C19', 'C20']
+DEPENDENTS = ['C01', 'C02', 'C03', 'C04', 'C05', 'C06', 'C07', 'C08', 'C09', 'C11', 'C12', 'C13', 'C14', 'C18', 'C19', 'C20']
 
 ASSUMPTIONS = step.ASSUMPTIONS + [
     'histories: banks untouched across mode switches follow by induction from the single-register frames proved here',
